@@ -835,3 +835,281 @@ def rule_OP8(ctx, rep):
                             f'(degree = {norm(dret[0].value)}): for operands of equal degree the remainder keeps the degree of the divisor (a = q*b + r with deg r < deg b fails)')
     if n < 4:
         raise AnalysisError(f'OP8: only {n} early exits of _mod/_divmod returning the dividend found (expected 4)')
+
+
+# ---------------------------------------------------------------------------------- OP9
+class _Unknown:
+    def __repr__(self):
+        return '?'
+
+
+_UNK = _Unknown()
+
+
+class _AbsList:
+    """an operand of the coefficient-list representation, known by its length only"""
+    def __init__(self, origin, n):
+        self.origin, self.n = origin, n
+
+
+def _op9_eval(e, env):
+    """value of an expression over operands known by length only: an int, a bool, an _AbsList or _UNK"""
+    if isinstance(e, ast.Constant) and isinstance(e.value, (int, bool)):
+        return e.value
+    if isinstance(e, ast.Name):
+        return env.get(e.id, _UNK)
+    if isinstance(e, ast.Call) and isinstance(e.func, ast.Name) and e.func.id == 'len' and len(e.args) == 1 and not e.keywords:
+        v = _op9_eval(e.args[0], env)
+        return v.n if isinstance(v, _AbsList) else _UNK
+    if isinstance(e, ast.Call) and isinstance(e.func, ast.Name) and e.func.id in ('min', 'max') and e.args and not e.keywords:
+        vs = [_op9_eval(a, env) for a in e.args]
+        if all(isinstance(v, int) for v in vs) and len(vs) >= 2:
+            return (min if e.func.id == 'min' else max)(vs)
+        return _UNK
+    if isinstance(e, ast.UnaryOp) and isinstance(e.op, ast.Not):
+        v = _op9_truth(e.operand, env)
+        return _UNK if v is _UNK else (not v)
+    if isinstance(e, ast.UnaryOp) and isinstance(e.op, ast.USub):
+        v = _op9_eval(e.operand, env)
+        return -v if isinstance(v, int) else _UNK
+    if isinstance(e, ast.BinOp) and isinstance(e.op, (ast.Add, ast.Sub, ast.Mult, ast.LShift)):
+        l, r = _op9_eval(e.left, env), _op9_eval(e.right, env)
+        if isinstance(l, int) and isinstance(r, int):
+            return l + r if isinstance(e.op, ast.Add) else l - r if isinstance(e.op, ast.Sub) else l * r if isinstance(e.op, ast.Mult) else (l << r if r >= 0 else _UNK)
+        return _UNK
+    if isinstance(e, ast.BoolOp):
+        vs = [_op9_truth(v, env) for v in e.values]
+        if isinstance(e.op, ast.And):
+            return False if any(v is False for v in vs) else _UNK if any(v is _UNK for v in vs) else True
+        return True if any(v is True for v in vs) else _UNK if any(v is _UNK for v in vs) else False
+    if isinstance(e, ast.Compare) and len(e.ops) == 1:
+        l, r = _op9_eval(e.left, env), _op9_eval(e.comparators[0], env)
+        op = e.ops[0]
+        if isinstance(l, _AbsList) and isinstance(op, (ast.Eq, ast.NotEq)) \
+                and isinstance(e.comparators[0], ast.List) and not e.comparators[0].elts:
+            return (l.n == 0) == isinstance(op, ast.Eq)            # a == []
+        if isinstance(l, int) and isinstance(r, int):
+            f = {ast.Lt: lambda: l < r, ast.LtE: lambda: l <= r, ast.Gt: lambda: l > r, ast.GtE: lambda: l >= r,
+                 ast.Eq: lambda: l == r, ast.NotEq: lambda: l != r}.get(type(op))
+            return f() if f else _UNK
+        return _UNK
+    if isinstance(e, ast.IfExp):
+        t = _op9_truth(e.test, env)
+        return _UNK if t is _UNK else _op9_eval(e.body if t else e.orelse, env)
+    return _UNK
+
+
+def _op9_truth(e, env):
+    v = _op9_eval(e, env)
+    if isinstance(v, _AbsList):
+        return v.n > 0
+    if isinstance(v, (int, bool)):
+        return bool(v)
+    return _UNK
+
+
+def _op9_paths(stmts, env, target, hits, fn):
+    """walk the statements in order for one choice of operand lengths; returns the environments that fall through.
+    `hits` collects (allocation node, evaluated length, env) whenever the target allocation is reached"""
+    envs = [env]
+    for s in stmts:
+        nxt = []
+        for env in envs:
+            if isinstance(s, (ast.Return, ast.Raise)):
+                _op9_scan(s, env, target, hits)
+                continue
+            if isinstance(s, ast.If):
+                t = _op9_truth(s.test, env)
+                if t is not False:
+                    nxt += _op9_paths(s.body, dict(env), target, hits, fn)
+                if t is not True:
+                    nxt += _op9_paths(s.orelse, dict(env), target, hits, fn)
+                continue
+            _op9_scan(s, env, target, hits)
+            if isinstance(s, ast.Assign) and len(s.targets) == 1:
+                tg = s.targets[0]
+                if isinstance(tg, ast.Name):
+                    env[tg.id] = _op9_eval(s.value, env)
+                elif isinstance(tg, ast.Tuple) and all(isinstance(x, ast.Name) for x in tg.elts):
+                    if isinstance(s.value, ast.Tuple) and len(s.value.elts) == len(tg.elts):
+                        vals = [_op9_eval(v, env) for v in s.value.elts]
+                    else:
+                        vals = [_UNK] * len(tg.elts)
+                    for x, v in zip(tg.elts, vals):
+                        env[x.id] = v
+                else:
+                    for x in iter_nodes(tg):
+                        if isinstance(x, ast.Name) and isinstance(x.ctx, ast.Store):
+                            env[x.id] = _UNK
+            elif isinstance(s, (ast.For, ast.While, ast.With, ast.Try, ast.AugAssign, ast.AnnAssign)):
+                # anything stored inside is no longer known (operands are not reassigned in loops of these primitives; if they were,
+                # their length is unknown from here on)
+                for x in iter_nodes(s):
+                    if isinstance(x, ast.Name) and isinstance(x.ctx, ast.Store):
+                        env[x.id] = _UNK
+            nxt.append(env)
+        envs = nxt
+    return envs
+
+
+def _op9_scan(s, env, target, hits):
+    for x in iter_nodes(s):
+        if id(x) in target:
+            hits.append((x, _op9_eval(target[id(x)], env), dict(env)))
+
+
+def rule_OP9(ctx, rep):
+    """normal form of products in the coefficient-list representation: `_mul` and `_sq` allocate the coefficient list of the product
+    (length len(a) + len(b) - 1, resp. 2 len(a) - 1) only when no operand is the zero polynomial [].  With an empty operand the product
+    is the zero polynomial, whose only representation is []: reaching the allocation with a positive length returns [0, .., 0], a
+    second representation of zero (equality, degree, truth value and the leading-coefficient loops of _mod all read the representation).
+    Decided over operand lengths only -- the primitives touch the operands up to that point through length comparisons and emptiness
+    tests alone, a finite set of orderings, enumerated here as lengths 0..3 for each operand."""
+    model = ctx.model
+    n = 0
+    for fname in ('_mul', '_sq'):
+        fn = model.func(f'gfpx::Polynomial.{fname}')
+        ops = [p for p in fn.params if p not in ('cls', 'self')]
+        if not ops:
+            raise AnalysisError(f'OP9: Polynomial.{fname} has no operands')
+        # allocations `[0] * E` / `E * [0]`
+        target = {}
+        for x in iter_nodes(fn.node):
+            if isinstance(x, ast.BinOp) and isinstance(x.op, ast.Mult):
+                for lst, ln in ((x.left, x.right), (x.right, x.left)):
+                    if isinstance(lst, ast.List) and len(lst.elts) == 1 and isinstance(lst.elts[0], ast.Constant) and lst.elts[0].value == 0:
+                        target[id(x)] = ln
+        if not target:
+            raise AnalysisError(f'OP9: no allocation of a coefficient list found in Polynomial.{fname}')
+        import itertools
+        verdict = {}
+        for lens in itertools.product(range(4), repeat=len(ops)):
+            env = {p: _AbsList(p, k) for p, k in zip(ops, lens)}
+            hits = []
+            _op9_paths(fn.node.body, env, target, hits, fn)
+            if 0 not in lens:
+                for node, ln, _e in hits:
+                    verdict.setdefault(id(node), [node, None])
+                continue
+            for node, ln, _e in hits:
+                v = verdict.setdefault(id(node), [node, None])
+                if ln is _UNK:
+                    raise AnalysisError(f'OP9: length of the list allocated in Polynomial.{fname} (line {node.lineno}) is not a function of the operand lengths')
+                if ln > 0 and v[1] is None:
+                    v[1] = (dict(zip(ops, lens)), ln)
+        for node, badcase in verdict.values():
+            n += 1
+            if badcase is None:
+                rep.ok('OP9', fn, node, f'{fname}: the product\'s coefficient list is allocated only for non-zero operands (operand lengths 0..3 enumerated)')
+            else:
+                lens, ln = badcase
+                shown = ', '.join(f'len({p}) = {k}' for p, k in lens.items())
+                rep.bad('OP9', fn, node, f'{fname}: for {shown} (a zero operand) the guards let the allocation through and a list of {ln} zero coefficient(s) is returned: '
+                        'a second representation of the zero polynomial, which is [] everywhere else (equality, degree and truth value read the representation)')
+    if n < 2:
+        raise AnalysisError(f'OP9: only {n} product allocations judged (expected _mul and _sq)')
+    return n
+
+
+# ---------------------------------------------------------------------------------- OP10
+_SHIFT_PAIRS = (('__lshift__', '__ilshift__'), ('__rshift__', '__irshift__'))
+
+
+def _op10_strip(e):
+    """receiver-independent form: self.f / cls.f / type(self).f -> f, so that `self._reciprocal(..)` and `cls._reciprocal(..)` agree"""
+    class S(ast.NodeTransformer):
+        def visit_Attribute(self, x):
+            v = x.value
+            if isinstance(v, ast.Name) and v.id in ('self', 'cls'):
+                return ast.Name(id=x.attr, ctx=ast.Load())
+            if isinstance(v, ast.Call) and isinstance(v.func, ast.Name) and v.func.id == 'type' and len(v.args) == 1 \
+                    and isinstance(v.args[0], ast.Name) and v.args[0].id == 'self':
+                return ast.Name(id=x.attr, ctx=ast.Load())
+            return self.generic_visit(x)
+    return norm(S().visit(copy.deepcopy(e)))
+
+
+def _op10_mentions(e, name):
+    return any(isinstance(x, ast.Name) and x.id == name for x in ast.walk(e))
+
+
+def _op10_application(fnrec, m, othern, pm):
+    """how the operator applies its operand: (operator name, receiver-independent operand expression), 'delegates', or None"""
+    from . import routes
+    inplace = m.name.startswith('__i')
+    if inplace:
+        for s in iter_nodes(m):
+            if isinstance(s, ast.AugAssign) and _op10_mentions(s.value, othern) or \
+                    isinstance(s, ast.AugAssign) and _op10_mentions(routes.xp(fnrec, s.value, s, pm), othern):
+                return type(s.op).__name__, _op10_strip(routes.xp(fnrec, s.value, s, pm)), s
+        for s in iter_nodes(m):
+            if isinstance(s, ast.Assign) and isinstance(s.value, ast.AST):
+                v = routes.xp(fnrec, s.value, s, pm)
+                b = _op10_outer_binop(v, othern)
+                if b is not None:
+                    return type(b.op).__name__, _op10_strip(b.right if _op10_mentions(b.right, othern) else b.left), s
+        return None
+    for r in iter_nodes(m):
+        if isinstance(r, ast.Return) and r.value is not None and not (isinstance(r.value, ast.Name) and r.value.id == 'NotImplemented'):
+            v = routes.xp(fnrec, r.value, r, pm)
+            b = _op10_outer_binop(v, othern)
+            if b is not None:
+                return type(b.op).__name__, _op10_strip(b.right if _op10_mentions(b.right, othern) else b.left), r
+    return None
+
+
+def _op10_outer_binop(v, othern):
+    """outermost binary operation one side of which carries the operand and the other side of which is the receiver (self / its value)"""
+    todo = [v]
+    while todo:
+        x = todo.pop(0)
+        if isinstance(x, ast.BinOp):
+            lo, ro = _op10_mentions(x.left, othern), _op10_mentions(x.right, othern)
+            ls, rs = _op10_mentions(x.left, 'self'), _op10_mentions(x.right, 'self')
+            if (ro and not lo and ls) or (lo and not ro and rs):
+                # the receiver side must be the receiver itself (self, self.value), not merely a helper called on it
+                side = x.left if ro else x.right
+                if isinstance(side, ast.Name) or (isinstance(side, ast.Attribute) and isinstance(side.value, ast.Name) and side.value.id == 'self'):
+                    return x
+        todo.extend(ast.iter_child_nodes(x))
+    return None
+
+
+def rule_OP10(ctx, rep):
+    """in-place / binary agreement of the shifts: in every field element / array class that defines both `a >> n` and `a >>= n`
+    (resp. `<<`, `<<=`), the two methods apply the same operation with the same operand expression to the receiver's value
+    (multiplication by the reciprocal of 2**n for >>, a left shift of the representation followed by reduction for <<).  A binary
+    shift that does something else than its in-place sibling makes `a >>= n` and `a = a >> n` differ."""
+    model = ctx.model
+    n = 0
+    for ck, cnode in sorted(model.classes.items()):
+        if not ck.startswith('finfields::'):
+            continue
+        meths = {m.name: m for m in cnode.body if isinstance(m, ast.FunctionDef)}
+        for bname, iname in _SHIFT_PAIRS:
+            mb, mi = meths.get(bname), meths.get(iname)
+            if mb is None or mi is None or _trivial(mb) or _trivial(mi) or len(mb.args.args) < 2 or len(mi.args.args) < 2:
+                continue
+            apps = []
+            for m in (mb, mi):
+                fnrec = model.by_node.get(id(m))
+                if fnrec is None:
+                    apps.append(None)
+                    continue
+                apps.append(_op10_application(fnrec, m, m.args.args[1].arg, parents(fnrec.node)))
+            if apps[0] is None or apps[1] is None:
+                continue          # a form this rule does not read (e.g. delegation to the sibling): not judged, see the floor
+            n += 1
+            (ob, eb, nb), (oi, ei, _ni) = apps
+            # the operand is named by each method's own parameter
+            eb = eb.replace(mb.args.args[1].arg, '<n>') if mb.args.args[1].arg != mi.args.args[1].arg else eb
+            ei = ei.replace(mi.args.args[1].arg, '<n>') if mb.args.args[1].arg != mi.args.args[1].arg else ei
+            fnb = model.by_node.get(id(mb))
+            if ob == oi and eb == ei:
+                rep.ok('OP10', fnb, nb, f'{ck.split("::")[1]}: {bname} and {iname} both apply {ob}({ei}) to the value')
+            else:
+                rep.bad('OP10', fnb, nb, f'{ck.split("::")[1]}: {bname} applies {ob}({eb}) to the value while its in-place sibling {iname} applies {oi}({ei}): '
+                        f'`a {"<<" if "l" == bname[2] else ">>"}= n` and `a = a {"<<" if "l" == bname[2] else ">>"} n` give different field elements')
+    if n < 4:
+        raise AnalysisError(f'OP10: only {n} binary/in-place shift pairs judged (expected >= 4)')
+    return n
